@@ -127,7 +127,11 @@ def check_type_unit(prop):
 # ------------------------------------------------------------------------------------------------ ActionTypeHint.__call__ (the argv path)
 def atc_setup(ctx):
     use = ["argv", "factory", "factory-nargs-0"][ctx.choose(3, "use")]
+    # the option may be spelled with a dash that its dest does not have (--my-list -> my_list): `--m` stands for the option string as declared, dest for its key
+    dashed = ctx.choose(2, "option-name-with-a-dash(dest has an underscore)") == 1 if use == "argv" else False
     opt = ["--m", "--m.sub", "--m.init_args.sub", "--m+", None][ctx.choose(5, "option-string")] if use == "argv" else "--m"
+    if dashed and opt in ("--m.sub", "--m.init_args.sub"):
+        dashed = False  # (dotted sub-options of a dashed option name: outside this unit)
     optional_none = ctx.choose(2, "nargs=?-and-no-value") == 1 if use == "argv" and opt == "--m" else False
     result_kind = ["scalar", "subclass-spec"][ctx.choose(2, "checked-value")] if use == "argv" and not optional_none else "scalar"
     prev_kind = ["none", "spec-with-init_args", "spec-without-init_args", "not-a-spec"][ctx.choose(4, "previous-value")] if result_kind == "subclass-spec" else "none"
@@ -145,7 +149,14 @@ def atc_setup(ctx):
         c.event("_check_type_", a[0], dict(k))
         return checked
 
-    self = Rec("ActionTypeHint", attrs={"dest": "m", "nargs": "?" if optional_none else None, "_typehint": Rec("typehint"), "_enable_path": z3.Bool("enable_path")}, methods={"_check_type_": check_type_})
+    name, dest = ("my-m", "my_m") if dashed else ("m", "m")
+    if opt is not None and use == "argv":
+        opt = opt.replace("--m", "--" + name, 1)
+    if prev is not None:
+        store.pop("m")
+        store[dest] = prev
+    self = Rec("ActionTypeHint", attrs={"dest": dest, "option_strings": ["--" + name, "--" + name + "+"], "nargs": "?" if optional_none else None, "_typehint": Rec("typehint"), "_enable_path": z3.Bool("enable_path")},
+               methods={"_check_type_": check_type_})
     made = []
     calls = {"NestedArg": lambda c, a, k: Rec("NestedArg", attrs=dict(k)), "is_subclass_spec": lambda c, a, k: isinstance(a[0], Rec) and a[0].attrs.get("spec", False),
              "ActionTypeHint.discard_init_args_on_class_path_change": lambda c, a, k: c.event("discard", a[0], a[1], a[2]),
@@ -158,7 +169,7 @@ def atc_setup(ctx):
         kwargs = {"option_strings": ["--m"], "dest": "m"}
         if use == "factory-nargs-0":
             kwargs["nargs"] = 0
-    return Setup(env={"self": self, "args": args, "kwargs": kwargs}, calls=calls, data=dict(use=use, opt=opt, optional_none=optional_none, result_kind=result_kind, prev_kind=prev_kind, given=given, checked=checked,
+    return Setup(env={"self": self, "args": args, "kwargs": kwargs}, calls=calls, data=dict(dest=dest, name=name, use=use, opt=opt, optional_none=optional_none, result_kind=result_kind, prev_kind=prev_kind, given=given, checked=checked,
                                                                                          prev=prev, prev_init=prev_init, new_init=new_init, store=store, cfg=cfg, self_=self, made=made))
 
 
@@ -173,19 +184,20 @@ def atc_post(ctx, st, result):
     ev = [e for e in ctx.events if e[0] == "_check_type_"]
     upd = [e for e in ctx.events if e[0] == "update"]
     if d["optional_none"]:
-        ctx.oblige("post", "an-optional-argument-given-without-a-value-stores-None-unchecked" + tag, not ev and len(upd) == 1 and upd[0][1] is None and upd[0][2] == "m")
+        ctx.oblige("post", "an-optional-argument-given-without-a-value-stores-None-unchecked" + tag, not ev and len(upd) == 1 and upd[0][1] is None and upd[0][2] == d["dest"])
         return
     ctx.oblige("post", "the-value-is-type-checked-once,with-the-configuration-so-far" + tag, len(ev) == 1 and ev[0][2].get("cfg") is d["cfg"])
     if len(ev) != 1:
         return
     val = ev[0][1]
-    if d["opt"] in ("--m.sub", "--m.init_args.sub"):
+    if d["opt"] is not None and d["opt"].endswith(".sub"):
         ctx.oblige("post", "--dest.K=v-and---dest.init_args.K=v-denote-the-same-nested-setting(K, v)" + tag, isinstance(val, Rec) and val.cls == "NestedArg" and val.attrs.get("key") == "sub" and val.attrs.get("val") is d["given"])
     else:
         ctx.oblige("post", "otherwise-the-text-given-is-what-is-checked" + tag, val is d["given"])
-    ctx.oblige("post", "--dest+-appends,every-other-spelling-replaces" + tag, ev[0][2].get("append") is (d["opt"] == "--m+"))
+    ctx.oblige("post", "the-option's-own-`+`-spelling-appends(also when the option name has a dash its dest does not have),every-other-spelling-replaces" + tag,
+               ev[0][2].get("append") is (d["opt"] == "--" + d["name"] + "+"))
     ctx.oblige("post", "the-checked-value-is-stored-under-the-option's-dest(overriding what was there: argv is applied left to right)" + tag,
-               len(upd) == 1 and upd[0][1] is d["checked"] and upd[0][2] == "m" and result is None)
+               len(upd) == 1 and upd[0][1] is d["checked"] and upd[0][2] == d["dest"] and result is None)
     dis = [e for e in ctx.events if e[0] == "discard"]
     if d["result_kind"] == "subclass-spec" and d["prev_kind"] == "spec-with-init_args":
         ctx.oblige("post", "a-new-class-spec-over-a-previous-one:init_args-of-a-changed-class-are-discarded-from-(previous, new)" + tag,
